@@ -1460,8 +1460,39 @@ def write_if_changed(path, text):
     return True
 
 
-def main(outdir=OUTDIR, report_path=None, groups=("lattice", "atom", "structure", "cif", "expansion")):
+def plugins():
+    """further source translators, one file each: `translate/src_<group>.py` defining `GROUP`, `OUTFILE` and
+    `translate(report) -> text of DS/Gen/<OUTFILE>` (they read the tree from `pysrc.REPO`)"""
+    import glob
+    import importlib.util
+    found = {}
+    for f in sorted(glob.glob(os.path.join(HERE, "src_*.py"))):
+        name = "translate_plugin_" + os.path.basename(f)[:-3]
+        spec = importlib.util.spec_from_file_location(name, f)
+        mod = importlib.util.module_from_spec(spec)
+        mod.pysrc = sys.modules[__name__]
+        spec.loader.exec_module(mod)
+        found[mod.GROUP] = mod
+    return found
+
+
+BASE_GROUPS = ("lattice", "atom", "structure", "cif", "expansion")
+
+
+def main(outdir=OUTDIR, report_path=None, groups=None):
     report = {}
+    plug = plugins()
+    if groups is None:
+        groups = BASE_GROUPS + tuple(sorted(plug))
+    for g in groups:
+        if g in plug:
+            try:
+                text = plug[g].translate(report)
+            except Untranslatable as e:  # a plug-in that cannot read its file at all
+                report[g] = {"methods": {}, "untranslatable": {"*": str(e)}}
+                text = "-- GENERATED by translate/%s — source unreadable\nnamespace DS.Src\ndef %s_untranslatable : String := %s\nend DS.Src\n" % (
+                    os.path.basename(plug[g].__file__), g, lean_str(str(e)))
+            write_if_changed(os.path.join(outdir, plug[g].OUTFILE), text)
     if "lattice" in groups:
         write_if_changed(os.path.join(outdir, "SrcLattice.lean"), translate_lattice(report))
     if "atom" in groups:
